@@ -8,4 +8,5 @@ inline char* cast_away(const char* p) { return const_cast<char*>(p); }
 struct node { int v = 0; void bump() { ++v; } int peek() const { return v; } };
 struct holder { node* n_ = nullptr; void deep_const_breach() const { n_->bump(); } int fine() const { return n_->peek(); } };
 inline int* raw_new_control() { return new int(7); }
+inline std::size_t written_static(const std::string& x) { static std::string scratch; scratch.assign(x); return scratch.size(); }
 }
